@@ -21,6 +21,7 @@ type Env struct {
 	bound map[string]bool // SMT-bound variable names (for pattern inference)
 	depth int
 	prev  *Env // state at the loop head (step clauses)
+	loopEntry *State // memory state at loop entry (loop clauses only)
 }
 
 func (e *Env) child() *Env {
@@ -969,6 +970,15 @@ func (e *Env) call(x *SExpr) Val {
 				return intVal(fmt.Sprintf("(bat %s %s)", a.T, i.T))
 			case "unfold":
 				return e.tr(x.Args[0])
+			case "atLoopEntry":
+				// atLoopEntry(e): e evaluated in the memory state in which the loop was entered (use it on
+				// expressions over variables the loop does not reassign)
+				if e.loopEntry == nil {
+					e.fail(x, "atLoopEntry() is only available in loop clauses")
+				}
+				n := *e
+				n.st = e.loopEntry
+				return n.tr(x.Args[0])
 			case "asType":
 				// asType(ifaceValue, T): the payload of an interface value viewed as type T
 				a := e.tr(x.Args[0])
